@@ -21,6 +21,7 @@ cache.py    `invalidate_body/def/closure`         (key expression, __M_defname e
             `_get_cache_kw`                       kw.pop("__M_defname", None), setdefault("context", ...)
             `_ctx_get_or_create`                  `if not self.template.cache_enabled: return creation_function()`
 template.py `Template.__init__`                   module_id = re.sub(r"\\W", "_", uri)
+ext/beaker_cache.py `BeakerCacheImpl`             the names it defines (does it override `CacheImpl.set`?)
 """
 from __future__ import annotations
 
@@ -231,6 +232,26 @@ def gen(repo) -> str:
     if mod_pat != r"\W" or len(mod_rep) != 1:
         raise RegenError("%s: module_id pattern/replacement not understood: %r, %r" % (rel_t, mod_pat, mod_rep))
 
+    # ---- ext/beaker_cache.py: which CacheImpl methods the Beaker implementation overrides ---------------------
+    rel_b = "mako/ext/beaker_cache.py"
+    tb = parse(repo, rel_b)
+    bimpl = find_class(tb, "BeakerCacheImpl", rel_b)
+    bnames = set()
+    for n in bimpl.body:
+        if isinstance(n, ast.FunctionDef):
+            bnames.add(n.name)
+        if isinstance(n, ast.Assign):
+            for tg in n.targets:
+                if isinstance(tg, ast.Name):
+                    bnames.add(tg.id)
+    base = find_class(tc, "CacheImpl", rel_c)
+    base_set = find_func(base.body, "set", rel_c)
+    base_raises = any(isinstance(n, ast.Raise) and "NotImplementedError" in ast.unparse(n) for n in ast.walk(base_set))
+    cset = find_func(cc.body, "set", rel_c)
+    calls_impl_set = any(isinstance(n, ast.Call) and ast.unparse(n.func) == "self.impl.set" for n in ast.walk(cset))
+    if not (base_raises and calls_impl_set):
+        raise RegenError("%s: Cache.set -> self.impl.set / CacheImpl.set raising NotImplementedError not recognised" % rel_c)
+
     def b(x):
         return "true" if x else "false"
 
@@ -275,6 +296,9 @@ def gen(repo) -> str:
          "def disabledBypassesBackend : Bool := %s" % b(bypass),
          "/-- `Cache.__init__`: `self.id = %s` -/" % id_src,
          "def cacheIdIsModuleName : Bool := %s" % b(id_src == "template.module.__name__"),
+         "/-- `Cache.set` calls `impl.set`, `CacheImpl.set` raises NotImplementedError; does `BeakerCacheImpl` define `set`? "
+         "(it defines: %s) -/" % ", ".join(sorted(x for x in bnames if not x.startswith("_"))),
+         "def beakerImplDefinesSet : Bool := %s" % b("set" in bnames),
          "/-- `Template.__init__`: `module_id = re.sub(%r, %r, uri)` -/" % (mod_pat, mod_rep),
          "def moduleIdReplacement : Char := Char.ofNat %d" % ord(mod_rep),
          "",
